@@ -313,7 +313,7 @@ def t2(ctx):
                             "each token boundary%s; non-trivial = all" % ("", ""),
               exhaustive=True)
     ctx.scope(sc_dbl, rule="%d seeded random double edits (delete/insert/replace/keyword/truncate composed twice) per base document x its "
-                           "first route; non-trivial = all" % (500 if quick else 5000), exhaustive=False)
+                           "first route; non-trivial = all" % (500 if quick else 15000), exhaustive=False)
     ctx.scope(sc_str, rule="every string of <= %d characters over \"(),:;A1 '[]\" as Newick; '#NEXUS' + every sequence of <= %d of %d NEXUS "
                            "tokens; every string of <= %d symbols over 5-symbol PHYLIP and FASTA alphabets; non-trivial = non-empty"
                            % (3 if quick else 4, 2 if quick else 3, len(NEXUS_TOKENS), 3 if quick else 4), exhaustive=True)
@@ -328,7 +328,7 @@ def t2(ctx):
             for r in routes:
                 items.append(dict(schema=schema, text=t, route=r, kw=kw, doc=name, mut=mname(m), kind=m[0],
                                   scope=(sc_trunc if m[0] == "trunc" else sc_edit), m=list(m)))
-        for m in double_edits(schema, text, 500 if quick else 5000, rng):
+        for m in double_edits(schema, text, 500 if quick else 15000, rng):
             items.append(dict(schema=schema, text=apply(text, m), route=routes[0], kw=kw, doc=name, mut=mname(m), kind="2x", scope=sc_dbl, m=list(m)))
     for name, schema, text, routes, kw in short_strings(ctx.tier):
         for r in routes:
